@@ -38,6 +38,9 @@ FAULT_CLASS = {
     "link-outside-dots": "LinkToExternalFileError", "link-outside-abs-symlink": "LinkToExternalFileError",
     "link-outside-rel-symlink": "LinkToExternalFileError", "link-outside-dir-symlink": "LinkToExternalFileError",
     "link-outside-encoded": "LinkToExternalFileError", "link-missing": "LinkToNonExistentFileError",
+    "link-sibling-rel": "LinkToExternalFileError", "link-sibling-abs": "LinkToExternalFileError",
+    "link-sibling-encoded": "LinkToExternalFileError", "link-sibling-symlink": "LinkToExternalFileError",
+    "link-sibling-dir-symlink": "LinkToExternalFileError",
 }
 MARKER = b"SECRET-MARKER"
 
@@ -505,6 +508,21 @@ def _resolve(page: str, ref: str) -> Optional[str]:
     return unquote(sp2.path).lstrip("/")
 
 
+import re as _re
+
+_PLACEHOLDER = _re.compile(rb"%[A-Z]{32}%")
+
+
+def oracle_residue(raw: Dict[str, bytes]) -> Optional[str]:
+    """No random placeholder of the Markdown compiler may survive into a generated page (C13 / C17)."""
+    for k, data in raw.items():
+        if k.endswith(".html") and not k.startswith("assets/"):
+            m = _PLACEHOLDER.search(data)
+            if m:
+                return f"{k}: a random placeholder {m.group(0)[:12].decode()}... was left in the page"
+    return None
+
+
 def oracle_links(obs: Dict[str, Any]) -> Optional[str]:
     """C14: every non-external, not purely in-page href/src of every page resolves to a file of the output; every
     page is reachable from index.html."""
@@ -760,6 +778,8 @@ def run_and_judge(site: Dict[str, Any], seed: int, which: str, facts: Dict[str, 
             viol = oracle_pages(site, obs, real, facts)
         elif which == "C16":
             viol = oracle_assets(site, obs, real)
+        if viol is None and which in ("C15", "C17"):
+            viol = oracle_residue(obs.get("_raw", {}))
         return obs, viol
     finally:
         shutil.rmtree(base, ignore_errors=True)
@@ -966,6 +986,8 @@ def make_alone_case(site: Dict[str, Any], a: Dict[str, Any], seed: int) -> Case:
         tags.append("has-data-url")
     if a["servings"] is not None and a["servings"] > 12:
         tags.append("servings>12")
+    if site.get("alone_fault"):
+        tags.append("alone:" + site["alone_fault"])
     fr = facts["recipes"].get(next((n_["text"] for p_, n_ in G.walk(site["base"]) if list(p_) == list(a["file"]) and "text" in n_), None))
     if fr and not fr["err"] and fr["servings"] and a["servings"] is not None and a["scale"] is None:
         den = Fraction(a["servings"], fr["servings"]).denominator
@@ -1003,6 +1025,44 @@ def pick_alone_big(rng: random.Random, site: Dict[str, Any]) -> Optional[Dict[st
     n["text"] = "\n".join(lines)
     want = [m for m in range(1, 46) if math.gcd(m, native) == 1 and m != 1]
     return {"file": list(p), "scale": None, "servings": rng.choice(want), "embed": rng.random() < 0.3}
+
+
+def pick_alone_sibling(rng: random.Random, site: Dict[str, Any]) -> Optional[Dict[str, Any]]:
+    """A stand-alone page (root = the recipe's directory) linking into a SIBLING directory whose name starts with the
+    name of the recipe's directory: outside by components, inside for a string-prefix test."""
+    recs = [(p, n) for p, n in G.walk(site["base"]) if n["k"] == "f" and "text" in n and p[0] == "src"
+            and G.is_md_name(n["name"]) and not G.is_readme_name(n["name"])]
+    if not recs:
+        return None
+    p, n = rng.choice(recs)
+    dname = p[-2]
+    parent = G.find(site["base"], p[:-2])
+    here = G.find(site["base"], p[:-1])
+    assert parent is not None and here is not None
+    sib = dname + rng.choice(["-private", "2", ".bak", " copy"])
+    if not any(ch["name"] == sib for ch in parent["ch"]):
+        parent["ch"].append(G.D(sib, [G.F("secret.bin", data=b"\x02SIBLING-OF-STANDALONE-ROOT\xfd"),
+                                      G.D("deep", [G.F("s.txt", text="sibling deep\n")])]))
+    tail = rng.choice(["secret.bin", "deep/s.txt"])
+    form = rng.choice(["rel", "abs", "encoded", "symlink", "dir-symlink"])
+    if form == "rel":
+        url = "../" + quote(sib, safe="") + "/" + tail
+    elif form == "abs":
+        url = "/../" + quote(sib, safe="") + "/" + tail
+    elif form == "encoded":
+        url = "%2E%2E/" + "".join("%%%02X" % b for b in sib.encode("utf-8")) + "/" + tail
+    elif form == "symlink":
+        here["ch"] = [ch for ch in here["ch"] if ch["name"] != "peek.bin"] + [G.L("peek.bin", "../" + sib + "/secret.bin")]
+        url = "peek.bin"
+    else:
+        here["ch"] = [ch for ch in here["ch"] if ch["name"] != "peekdir"] + [G.L("peekdir", "../" + sib)]
+        url = "peekdir/" + tail
+    head = n["text"].split("\n\n")[0]
+    if not head.startswith("# "):
+        head = "# Sibling"
+    n["text"] = head + "\n\nSee " + G.md_link(rng, url, rng.random() < 0.4) + "\n\n    2 eggs\n"
+    site["alone_fault"] = "sibling-" + form
+    return {"file": list(p), "scale": None, "servings": None, "embed": True}
 
 
 def pick_alone(rng: random.Random, site: Dict[str, Any]) -> Optional[Dict[str, Any]]:
@@ -1113,6 +1173,8 @@ def make_history_case(site: Dict[str, Any], steps: List[Dict[str, Any]], seed: i
                         o = {"error": exc_name(e), "message": str(e).replace(base, "{BASE}")[:300]}
                 if "error" not in o:
                     o = read_output(out)
+                    if viol is None:
+                        viol = oracle_residue(o["_raw"])
                 shutil.rmtree(out, ignore_errors=True)
                 step_terms.append(f"(HGenerate {cpath(['B'] + list(cur['input']))} {c.n_(st['M'])})")
                 obs_terms.append(f"(HSite {coq_site_obs(o)})")
@@ -1261,7 +1323,13 @@ def _alone_job(args: Tuple[int, int, str]) -> Optional[Case]:
     site = G.gen_site(rng, profile, rng.choice(["small", "small", "medium"]))
     if profile == "valid" and rng.random() < 0.6:
         add_local_links(rng, site)
-    a = pick_alone_big(rng, site) if (profile == "valid" and rng.random() < 0.35) else pick_alone(rng, site)
+    r = rng.random()
+    if profile == "valid" and r < 0.3:
+        a = pick_alone_big(rng, site)
+    elif profile == "valid" and r < 0.5:
+        a = pick_alone_sibling(rng, site)
+    else:
+        a = pick_alone(rng, site)
     if a is None:
         return None
     return make_alone_case(site, a, seed * 100000 + i)
